@@ -322,6 +322,21 @@ def r3_track(chk, repo):
 # ------------------------------------------------------------------------------------ R4
 def r4_exact_unless_fuzzy(chk, repo):
     chk.describe("C02.R4", "stored data matches only on equal lineage unless fuzzy options are given; the fuzzy filter removes exactly the named data types and options")
+
+    # the key under which a plugin enters lineages is computed the same way where lineages are built
+    # and where fuzzy_for data types are translated into lineage keys
+    al = repo.func("Context.__add_lineage_to_plugin", CONTEXT)
+    fo = repo.func("Context._find_options", CONTEXT)
+    def _prov_idx(fn):
+        out = []
+        for x in walk_body(fn.node):
+            if isinstance(x, ast.Subscript) and isinstance(x.value, ast.Attribute) and x.value.attr == "provides" and not isinstance(x.slice, ast.Slice):
+                out.append(norm(x.slice))
+        return out
+    ia, ifo = _prov_idx(al), _prov_idx(fo)
+    lin = [st for st in walk_body(al.node) if isinstance(st, ast.Assign) and norm(st.targets[0]).endswith(".lineage") and isinstance(st.value, ast.Dict)]
+    chk.check(len(ia) == 1 and len(ifo) == 1 and ia == ifo and bool(lin), "C02.R4", fo, None, f"fuzzy_for data types are translated to lineage keys with provides[{ifo}] while lineages are keyed with provides[{ia}]: for multi-output plugins the fuzzy filter names a key that does not exist, their stored outputs are never recognised and are recomputed on every request",
+              site_text="_find_options and __add_lineage_to_plugin agree on the lineage key (provides[-1])", site={"function": fo.qualname, "rule": "lineage key agreement"})
     m = repo.func("StorageFrontend._matches", COMMON)
     cfg = cfg_of(m)
     rets = [n for n in cfg.stmt_nodes() if isinstance(n.stmt, ast.Return)]
@@ -380,6 +395,8 @@ def literals_of(facts):
 
 
 WITNESSES = [
+    W("fuzzy_for mapped to the first provided type", "C02.R4", CONTEXT,
+      "last_provides.append(self._plugin_class_registry[key].provides[-1])", "last_provides.append(self._plugin_class_registry[key].provides[0])"),
     W("drop version() from the context hash", "C02.R1", CONTEXT,
       "data_type: (plugin.version(), plugin.compressor, plugin.input_timeout)", "data_type: (plugin.compressor, plugin.input_timeout)"),
     W("context hash ignores the config", "C02.R1", CONTEXT,
